@@ -92,6 +92,9 @@ type US4 struct {
 	Last  bool
 }
 
+// a zero-size element type
+type UEmpty struct{}
+
 type UBadInline struct {
 	P *UIn `struct:",inline"`
 }
@@ -200,6 +203,7 @@ var menagerie = map[string]reflect.Type{
 	"Geo":       reflect.TypeOf(UGeo{}),
 	"Mid":       reflect.TypeOf(UMid{}),
 	"S4":        reflect.TypeOf(US4{}),
+	"Empty":     reflect.TypeOf(UEmpty{}),
 	"BadInline": reflect.TypeOf(UBadInline{}),
 	"Dup":       reflect.TypeOf(UDup{}),
 	"Arr":       reflect.TypeOf(UArr{}),
